@@ -3,6 +3,7 @@ This module provides the class VersionConverter to convert
 odML XML files from version 1.0 to 1.1.
 """
 
+import csv
 import io
 import json
 import os
@@ -280,7 +281,7 @@ class VersionConverter(object):
         """
         for prop in root.iter("property"):
             main_val = ET.Element("value")
-            multiple_values = False
+            values = []
             parent = prop.getparent()
 
             # If a Property has no name attribute, remove it from its parent and
@@ -304,21 +305,14 @@ class VersionConverter(object):
                 # Move supported elements from Value to parent Property.
                 self._handle_value(value, prop_id)
 
-                if value.text:
-                    if main_val.text:
-                        main_val.text += "," + value.text.strip()
-                        multiple_values = True
-                    else:
-                        main_val.text = value.text.strip()
+                if value.text and value.text.strip():
+                    values.append(value.text.strip())
 
                 prop.remove(value)
 
             # Append value element only if it contains an actual value
-            if main_val.text:
-                # Multiple values require brackets
-                if multiple_values:
-                    main_val.text = "[" + main_val.text + "]"
-
+            if values:
+                main_val.text = self._values_to_csv(values)
                 prop.append(main_val)
 
             # Reverse map "dependency_value", exclude unsupported Property attributes.
@@ -331,6 +325,25 @@ class VersionConverter(object):
                     self._log("[Info] Omitted non-Property attribute "
                               "'%s: %s/%s'" % (prop_id, elem.tag, elem.text))
                     prop.remove(elem)
+
+    @staticmethod
+    def _values_to_csv(values):
+        """
+        Serializes a list of value strings to the odML v1.1 XML value format.
+        Multiple values are exported as a bracketed csv row; individual values
+        containing separators or quotes are quoted so they stay a single value.
+        A single value wrapped in brackets is exported the same way to keep it
+        from being read as a list.
+
+        :param values: list of non-empty strings.
+        :return: string containing the v1.1 value content.
+        """
+        if len(values) == 1 and not (values[0].startswith("[") and values[0].endswith("]")):
+            return values[0]
+
+        stream = io.StringIO()
+        csv.writer(stream, dialect="excel", lineterminator="").writerow(values)
+        return "[%s]" % stream.getvalue()
 
     def _handle_value(self, value, log_id):
         """
